@@ -43,11 +43,23 @@ class Gen:
             self.kinds.add("each")
             var = self.fresh("VV")
             mode = r.random()
-            if mode < 0.35:
+            if mode < 0.2:
                 n = r.randrange(0, 65)
                 self.kinds.add("count")
                 elems = [str(i) for i in range(n)]
                 lst = "{ @count %d }" % n
+            elif mode < 0.35:
+                # @count among other elements (what follows it differs from use to use), also twice in one list;
+                # small counts so that the same N recurs within a program
+                self.kinds.add("count")
+                parts, elems = [], []
+                for _ in range(r.randrange(1, 4)):
+                    if r.random() < 0.6:
+                        n = r.randrange(0, 4)
+                        parts.append("@count %d" % n); elems += [str(i) for i in range(n)]
+                    else:
+                        v = str(r.randrange(200)); parts.append(v); elems.append(v)
+                lst = "{ " + " ".join(parts) + " }"
             elif mode < 0.5:
                 elems = [str(r.randrange(200))]
                 lst = elems[0]                                  # a single token without braces
